@@ -166,6 +166,18 @@ theorem filter_keeps_intervals (p : Piler) (f : Nat → Bool) :
   rfl
 
 
+/-- "all pair filters on the Piles call", for a filter that inspects the piles its pair's images
+    lie in (`p.A.Loc` / `p.B.Loc`): the result is `Piles(nil)` with an image kept iff the filter,
+    evaluated on the FINAL piles (`locate` = the pile of `Piles(nil)` listing the image), accepts
+    its pair; intervals unchanged.  The same on the first and on every later call (`pilesLoc` is
+    a function of the state). -/
+theorem loc_filter_on_final_piles (p : Piler) (g : LocFilter) :
+    p.pilesLoc g = (p.piles none).map fun q =>
+      { q with imgs := q.imgs.filter (fun i => g (i / 2) (p.locate (2 * (i / 2))) (p.locate (2 * (i / 2) + 1))) } := by
+  unfold Piler.pilesLoc
+  rw [filter_keeps_intervals]
+  rfl
+
 /-! ### duplicates -/
 
 /-- the same pair of (location, start, end) keys, in either orientation -/
